@@ -120,7 +120,7 @@ def _canon(c):
     if c.get("absent"):
         return {"absent": True}
     return {"ann": sorted(c["ann"]), "units": sorted(map(tuple, c["units"])), "cats": sorted(c["cats"]),
-            "lo": c["lo"], "hi": c["hi"], "bws": c["bws"]}
+            "lo": c["lo"], "hi": c["hi"]}      # (best_window_size is not part of C13's statement: not compared)
 
 
 def abstract_heap(objs, nobj, inv):
@@ -135,7 +135,7 @@ def abstract_heap(objs, nobj, inv):
         try:
             units = [(inv["ann"][u[0]], inv["time"][u[1]], inv["time"][u[2]], inv["lab"][u[3]]) for u in p["units"]]
             c = {"ann": [inv["ann"][a] for a in p["ann"]], "units": units, "cats": [inv["lab"][x] for x in p["cats"]],
-                 "lo": inv["time"][p["lo"]], "hi": inv["time"][p["hi"]], "bws": p["bws"]}
+                 "lo": inv["time"][p["lo"]], "hi": inv["time"][p["hi"]]}
         except KeyError as ex:
             problems.append(f"object {o}: value outside the universe: {ex!r}")
             heap.append({"absent": False, "bad": repr(p)})
@@ -307,6 +307,9 @@ def l3(rep, pa, n_traces, length, batch=300, ops_weights=None, key_prefix="trace
             rep.sample({"layer": "L3", "history_head": [[e["op"], e["args"], e["out"]] for e in traces[0][:12]]})
         firsts = {}
         for t, l, name in verdicts:
+            if name in contmodel.BEYOND:
+                rep.beyond(f"{key_prefix}.{name}.{traces[t][l]['op']}", {"event_index": l, "history_tail": [[e["op"], e["args"]] for e in traces[t][max(0, l - 3):l + 1]]})
+                continue
             firsts.setdefault(t, (l, name))
         for t, (l, name) in firsts.items():
             tr = traces[t]
